@@ -479,6 +479,7 @@ def monitors(res, cfg, events, lines, script):
     reads_issued = 0
     owed_now = 0
     withheld = None
+    closed_transports, still_open, written_after_close = set(), None, None
     for idx, (ev, line) in enumerate(zip(events, lines)):
         outs = [o for o in line.split(';') if o]
         k = ev[0]
@@ -522,6 +523,14 @@ def monitors(res, cfg, events, lines, script):
                 attempts_after_close += 1
             if o == 'closeDone':
                 close_done = True
+                # "closing ends it": when close() / stopService() has completed, a connection that is still up must
+                # have been closed by the session (the transport reports the loss afterwards)
+                if live and cur and cur not in closed_transports and still_open is None:
+                    still_open = (idx, cur)
+            if o.startswith('X'):
+                closed_transports.add(int(o[1:]))
+            if o.startswith('W') and close_done and written_after_close is None:
+                written_after_close = (idx, k, int(o[1:o.index(':')]))
             if o.startswith('H:'):
                 handed.append(o[2:])
             if o.startswith('W'):
@@ -585,6 +594,10 @@ def monitors(res, cfg, events, lines, script):
         res.violation('C13', 'no-reconnect', 'asyncio session made no new connection attempt within %d s of virtual time after the previous connection/attempt failed (event %r at t=%d ms)' % ((RECONNECT_BOUND_MS // 1000,) + no_reconnect), script)
     if attempts_after_close:
         res.violation('C13', 'attempt-after-close', 'asyncio session made %d connection attempt(s) after close()' % attempts_after_close, script)
+    if still_open is not None:
+        res.violation('C13', 'closed-but-connected', '%s session: close() completed (event %d) while connection %d was up and had not been closed by the session: the "closed" session stays connected' % (script.get('client', 'asyncio'), still_open[0], still_open[1]), script)
+    if written_after_close is not None:
+        res.violation('C13', 'active-after-close', '%s session: after close() had completed it wrote on connection %d (event %d, %s): closing did not end it' % (script.get('client', 'asyncio'), written_after_close[2], written_after_close[0], written_after_close[1]), script)
     if closed and not close_done:
         res.violation('C13', 'close-unbounded', 'asyncio session: close() did not complete although every transport it closed was reported lost and 5 s passed', script, )
 
